@@ -68,19 +68,23 @@ AddAll(ix, row, pre) ==
                                                    ELSE ix[j]]
        IN  AddAll(ix2, row, Tail(pre))
 
-BuildRow == /\ pc = "build" /\ li <= Len(lt)
+BuildRowWith(plen) ==
+            /\ pc = "build" /\ li <= Len(lt)
             /\ LET toks == OrderedBag(lt[li], ord) IN
-                 idx' = AddAll(idx, li - 1, Slice0(toks, 0, PrefixLen(Len(toks))))
+                 idx' = AddAll(idx, li - 1, Slice0(toks, 0, plen))
             /\ llens' = Append(llens, Len(lt[li]))
             /\ li' = li + 1
             /\ UNCHANGED <<lt, rt, tau, op, pc, ord, ri, out>>
+BuildRow == /\ pc = "build" /\ li <= Len(lt)
+            /\ BuildRowWith(PrefixLen(Len(Grams(lt[li]))))
 BuildDone == /\ pc = "build" /\ li > Len(lt) /\ pc' = "probe"
              /\ UNCHANGED <<lt, rt, tau, op, ord, li, ri, idx, llens, out>>
 
-ProbeRow ==
+CandsOf(toks, rp) == UNION {SeqToSet(idx[k]) : k \in SeqToSet(Slice0(toks, 0, rp)) \cap DOMAIN idx}
+ProbeRowWith(rp) ==
   /\ pc = "probe" /\ ri <= Len(rt)
   /\ LET toks == OrderedBag(rt[ri], ord)
-         pre == Slice0(toks, 0, PrefixLen(Len(toks)))
+         pre == Slice0(toks, 0, rp)
          cands == UNION {SeqToSet(idx[k]) : k \in SeqToSet(pre) \cap DOMAIN idx}
          rlen == Len(rt[ri])
          pass == {l \in cands : rlen - tau <= llens[l + 1] /\ llens[l + 1] <= rlen + tau
@@ -88,6 +92,8 @@ ProbeRow ==
      IN  out' = out \cup {<<l, ri - 1, Lev(lt[l + 1], rt[ri])>> : l \in pass}
   /\ ri' = ri + 1
   /\ UNCHANGED <<lt, rt, tau, op, pc, ord, li, idx, llens>>
+ProbeRow == /\ pc = "probe" /\ ri <= Len(rt)
+            /\ ProbeRowWith(PrefixLen(Len(Grams(rt[ri]))))
 Finish == /\ pc = "probe" /\ ri > Len(rt) /\ pc' = "done"
           /\ UNCHANGED <<lt, rt, tau, op, ord, li, ri, idx, llens, out>>
 
